@@ -64,7 +64,8 @@ def validate_stream(res, module, outdir, stream, pid, also=()):
     for r in rejects:
         fails = [f for f in r["fails"] if f["p"] == pid or f["p"] in also]
         if fails:
-            mine.append(dict(prop=pid, why="; ".join(f["why"] for f in fails), event=r["ev"], trace=r["trace"], line=r["line"], spec=module))
+            devs = set(f.get("dev", "") for f in fails)
+            mine.append(dict(prop=pid, why="; ".join(f["why"] for f in fails), dev=devs.pop() if len(devs) == 1 else "", event=r["ev"], trace=r["trace"], line=r["line"], spec=module))
     res.coverage["traces_validated_against_impl"] = res.coverage.get("traces_validated_against_impl", 0) + n - len(rejects)
     res.coverage["events_validated"] = res.coverage.get("events_validated", 0) + n
     return mine
@@ -148,7 +149,65 @@ def C03(tier, seed):
     res.assumptions = ["the over-read clause is decided by the execution environment (guard pages, ASan) making the access an event; the specification forbids the event", "TLC/SANY, CommunityModules"]
     return res
 
-CHECKS = {"C01": C01, "C02": C02, "C03": C03, "C04": C04}
+def C05(tier, seed):
+    res = Result("C05", "model_checking")
+    out = rundir("C05")
+    exe = vlib.build("asan")
+    tbl = recognizer_table()
+    m = vlib.model_check("MC_Writer")
+    res.add_model(m, "MC_Writer (append-by-piece bounded writer: never writes at index >= cap; final outcome satisfies the WriteOK contract)")
+    h = vlib.run_harness(exe, ["tostring", "--table", tbl, "--seed", str(seed), "--tier", tier], out, "tostr")
+    res.violations += harness_crash_violations(h, "C05")
+    res.add_stats(vlib.merge_stats(h["stats"]))
+    res.violations += validate_stream(res, "Trace_ToString", out, "tostr", "C05")
+    res.coverage["rule"] = ("real URI objects (parsed from the component corpus, fully normalized, resolved against a base) x every capacity from -1 to required+2 x charsWritten NULL/non-NULL x both widths; "
+        "each call is made twice: destination ending at a PROT_NONE page, and destination followed by logged canary cells; TLC checks the WriteOK contract against Recompose of the logged value. "
+        "non-trivial = non-empty recomposed text; distinct by (origin, value, width)")
+    res.assumptions = ["TLC/SANY, CommunityModules", "spec/UriWriter.tla contract; spec/UriValue.tla Recompose", "guard pages make an out-of-capacity write an event"]
+    return res
+
+# ------------------------------------------------------------------ the value algebra: C06, C08, C09, C11
+ALG_ASSUME = ["TLC/SANY, CommunityModules", "spec/UriPath.tla, UriResolve.tla, UriNormalize.tla: RFC 3986 5.2/6.2.2 transcribed on values; cross-checked inside TLC against the literal text-level algorithms and the RFC example tables (RfcExamples.tla)",
+              "harness projection; events carry the projected value of the real input objects (no cross-talk from the parser)"]
+def _algebra(pid, tier, seed, modes, model_note, also=()):
+    res = Result(pid, "model_checking")
+    out = rundir(pid)
+    exe = vlib.build("asan")
+    m = vlib.model_check("MC_Algebra", cfg="MC_Algebra_t.cfg" if tier == "thorough" else "MC_Algebra.cfg", timeout=3000)
+    res.add_model(m, "MC_Algebra (" + model_note + ")")
+    m2 = vlib.model_check("MC_RfcExamples", workers=2)
+    res.add_model(m2, "MC_RfcExamples (RFC 3986 5.4.1/5.4.2/6.2.2 tables hold for the value-level and the literal text-level formulation)")
+    for mode, n_q, n_t in modes:
+        h = vlib.run_harness(exe, ["algebra", "--mode", mode, "--n", str(n_t if tier == "thorough" else n_q), "--seed", str(seed), "--tier", tier], out, mode)
+        res.violations += harness_crash_violations(h, pid)
+        res.violations += [v for v in h["violations"] if v.get("prop") == pid]
+        res.add_stats(vlib.merge_stats(h["stats"]))
+        res.violations += validate_stream(res, "Trace_Algebra", out, mode, pid, also=also)
+    res.assumptions = ALG_ASSUME
+    return res
+
+def C06(tier, seed):
+    res = _algebra("C06", tier, seed, [("addbase", 30000, 500000)], "all (reference, base, option) of the component universe: target reads back as held, agrees with the literal RFC 5.2.2/5.2.3/5.2.4 text algorithm except the '//' guard and rootless dot-removal inputs, return code")
+    res.coverage["rule"] = ("(reference, base, option) triples: the component-wise universe of spec/MC_Algebra (3 schemes x 3 authorities x abs x segment lists over {'', '.', '..', 'a', 'b:c', '%2e'} x query x fragment, against 18 bases incl. rootless, empty-path, empty-authority, user/port, IP hosts) "
+        "plus random paths of up to 10 segments; three entry points, both widths; TLC compares the projected real target with ResolveT of the projected real inputs. non-trivial = reference non-empty and different from the base; distinct by (ref, base, option)")
+    return res
+def C08(tier, seed):
+    res = _algebra("C08", tier, seed, [("normalize", 18000, 400000)], "normal form reads back as held, idempotent, mask locality and composition per component")
+    res.coverage["rule"] = ("URI texts over component alphabets {a, A, %41, %7e, %7E, %3a, %3A, %2e, %2E, '.', '..', ''} with every host kind, x masks (quick: 13 incl. 0, single bits, all, bits beyond 63; thorough: all 64) x borrowed/owned x 3 entry points x both widths; "
+        "each run also records the mask-required query before and after; TLC compares with Normalize(value, mask) and MaskOK. non-trivial = non-zero mask; distinct by (text, mask, ownership)")
+    return res
+def C09(tier, seed):
+    res = _algebra("C09", tier, seed, [("c09", 16000, 300000), ("normalize", 9000, 100000)], "Normalize(Resolve(Normalize(R),B)) = Normalize(Resolve(R,B)) for all pairs without %2e segments (strict resolution); scheme/authority presence and path kind preserved")
+    res.coverage["rule"] = ("(R, B) pairs of the MC_Algebra universe without percent-encoded dot segments, absolute bases: both pipelines are executed in the real library and TLC requires the two texts to be equal and equal to the specification's; "
+        "plus Normalize events for the kind clause. non-trivial = R non-empty; distinct by (R, B)")
+    return res
+def C11(tier, seed):
+    res = _algebra("C11", tier, seed, [("equals", 40000, 600000), ("addbase", 8000, 100000), ("normalize", 6000, 100000)], "every value produced by resolution/normalization is in the structure that parsing its text yields (so equal <=> same text)")
+    res.coverage["rule"] = ("all ordered pairs of real URI objects from a pool of texts differing in exactly one component (incl. absent vs empty, '/a' vs 'a' with and without scheme, IP hosts equal by value / differing in the low bytes) plus objects produced by resolution and normalization; "
+        "uriEqualsUri both ways against Equal of the projections and against equality of the real recomposed texts; arguments byte-snapshotted; resolution/normalization outputs must have the parsed structure. non-trivial = the two objects differ by origin; distinct by pair")
+    return res
+
+CHECKS = {"C01": C01, "C02": C02, "C03": C03, "C04": C04, "C05": C05, "C06": C06, "C08": C08, "C09": C09, "C11": C11}
 
 # ------------------------------------------------------------------ known findings triage, replay
 def triage(pid, violations, kf):
